@@ -75,6 +75,21 @@ def numberEvs : Nat → List Ev → List NEv
 def specTrace (c : Cfg) (b : Bytes) (err : EndErr) : List NEv :=
   numberEvs 0 (specEvents c b) ++ [NEv.bodyEnd err]
 
+/-- A second admissible reading of "a body cut part-way through a payload": when the prefix is
+complete but no payload byte was seen, a partial event with count 0 may be reported as well.
+(The code under test reports nothing there; `holds` accepts both.) -/
+def tailEventsAlt : Tail → List Ev
+  | .partialPayload e 0 => [Ev.data (some e) 0]
+  | t => tailEvents t
+
+def specTraceAlt (c : Cfg) (b : Bytes) (err : EndErr) : List NEv :=
+  numberEvs 0 (if c.isStream then (parse b).1.flatMap (itemEvents c) ++ tailEventsAlt (parse b).2
+               else countEvents b.length) ++ [NEv.bodyEnd err]
+
+/-- the property's predicate on an observed trace of one side -/
+def traceOk (c : Cfg) (b : Bytes) (err : EndErr) (observed : List NEv) : Bool :=
+  observed == specTrace c b err || observed == specTraceAlt c b err
+
 /-- indices of the data events of a trace, in order -/
 def indices : List NEv → List Nat
   | [] => []
